@@ -73,7 +73,11 @@ inline uint64_t hash_fields(const Fields& f) {
 inline std::string generic_field(std::string f) {
 	std::string o;
 	for (size_t i = 0; i < f.size(); i++) {
-		if (f[i] == '[') { while (i < f.size() && f[i] != ']') i++; continue; }
+		if (f[i] == '[') { // skip "[...]" up to the "]." that closes the label (names may contain brackets)
+			size_t e = f.find("].", i);
+			i = e == std::string::npos ? f.size() : e;
+			continue;
+		}
 		o += f[i];
 	}
 	if (o.compare(0, 6, "shape.") == 0) o = o.substr(6);
@@ -262,34 +266,61 @@ inline Fields model_snapshot(NifFile& nif) {
 		put("root", root ? root->name.get() : std::string("<none>"));
 	}
 	{
+		auto names = nif.GetShapeNames();
+		std::sort(names.begin(), names.end());
 		std::string s;
-		for (auto& n : nif.GetShapeNames()) s += n + "|";
+		for (auto& n : names) s += n + "|";
 		put("shapenames", s);
 	}
-	// nodes
+	// Nodes and shapes are keyed by name, not by position: a default save reorders blocks.  Entries
+	// sharing a name are ranked by their content hash, so the labelling does not depend on block order.
+	auto emit_sorted = [&](const char* what, std::vector<std::pair<std::string, Fields>>& items) {
+		std::vector<std::tuple<std::string, uint64_t, size_t>> order;
+		for (size_t i = 0; i < items.size(); i++) order.emplace_back(items[i].first, hash_fields(items[i].second), i);
+		std::sort(order.begin(), order.end());
+		std::map<std::string, int> rank;
+		for (auto& o : order) {
+			int r = rank[std::get<0>(o)]++;
+			std::string p = std::string(what) + "[" + std::get<0>(o) + "#" + std::to_string(r) + "].";
+			for (auto& kv : items[std::get<2>(o)].second) out.emplace_back(p + kv.first, kv.second);
+		}
+	};
 	{
-		size_t k = 0;
-		for (auto node : nif.GetNodes()) {
-			std::string p = "node[" + std::to_string(k++) + "].";
-			put(p + "type", node->GetBlockName());
-			put(p + "name", node->name.get());
-			put(p + "transform", sig(node->GetTransformToParent()));
-			put(p + "flags", std::to_string(node->flags));
-			auto parent = nif.GetParentNode(node);
-			put(p + "parent", parent ? parent->name.get() : std::string("<none>"));
-			put(p + "children", std::to_string(node->childRefs.GetSize()));
+		// parent of every block in one pass (first NiNode, in block order, listing it as a child)
+		std::map<uint32_t, NiNode*> parent_of;
+		for (auto node : nif.GetNodes())
+			for (auto& c : node->childRefs)
+				if (!c.IsEmpty() && !parent_of.count(c.index)) parent_of[c.index] = node;
+		std::vector<std::pair<std::string, Fields>> items;
+		for (uint32_t i = 0; i < hdr.GetNumBlocks(); i++) {
+			auto node = hdr.GetBlock<NiNode>(i);
+			if (!node) continue;
+			Fields f;
+			f.emplace_back("type", node->GetBlockName());
+			f.emplace_back("name", node->name.get());
+			f.emplace_back("transform", sig(node->GetTransformToParent()));
+			f.emplace_back("flags", std::to_string(node->flags));
+			auto it = parent_of.find(i);
+			f.emplace_back("parent", it != parent_of.end() ? it->second->name.get() : std::string("<none>"));
+			f.emplace_back("children", std::to_string(node->childRefs.GetSize()));
 			std::string s;
 			for (auto& r : node->extraDataRefs) {
 				auto ed = hdr.GetBlock(r);
 				if (ed) s += std::string(ed->GetBlockName()) + ":" + ed->name.get() + "|";
 			}
-			put(p + "extradata", s);
+			f.emplace_back("extradata", s);
+			items.emplace_back(node->name.get(), std::move(f));
 		}
+		emit_sorted("node", items);
 	}
-	// shapes
 	{
-		size_t k = 0;
-		for (auto shape : nif.GetShapes()) shape_snapshot(nif, shape, "shape[" + std::to_string(k++) + "].", out);
+		std::vector<std::pair<std::string, Fields>> items;
+		for (auto shape : nif.GetShapes()) {
+			Fields f;
+			shape_snapshot(nif, shape, "", f);
+			items.emplace_back(shape->name.get(), std::move(f));
+		}
+		emit_sorted("shape", items);
 	}
 	// header strings actually referenced by blocks
 	{
